@@ -1,6 +1,111 @@
-(* C17 — placeholder during development *)
-From Coq Require Import QArith List.
-From Verif Require Import model.PoolBounds.
-Example C17_dev : advertised nil = None.
-Proof. reflexivity. Qed.
-Print Assumptions C17_dev.
+(* C17 — Power inside a pool's advertised bounds is never rejected as out of bounds.
+   Statements only; every proof is `exact <lemma>` from proofs/.
+
+   gs      : any list of battery groups with complete data (batteries' bounds, inverters' bounds);
+             groups may overlap, the grouping is the parameter both code paths share
+   advertised (map wrap gs)       = PowerBoundsCalculator.calculate on that data
+   enforced (map pair_of gs)      = BatteryManager._get_bounds on the InvBatPairs of the same groups
+   check_request adjust bounds p  = BatteryManager._check_request (true = not OutOfBounds) *)
+From Coq Require Import QArith List Lqa.
+From Verif Require Import model.Common model.PoolBounds proofs.PoolBoundsNum proofs.PoolBoundsFacts proofs.PoolBoundsKeyed.
+Import ListNotations.
+Open Scope Q_scope.
+
+(* The calculator advertises bounds exactly when there is a group, and they are the per-group
+   max/min of battery and inverter bounds, summed over the groups. *)
+Theorem C17_advertised_shape : forall gs, Forall wf_group gs ->
+  match advertised (map wrap gs) with
+  | Some a => gs <> [] /\ pb_eq a (adv_sum gs)
+  | None => gs = []
+  end.
+Proof. exact advertised_complete. Qed.
+
+(* The inclusion bounds advertised and enforced are identical. *)
+Theorem C17_incl_equal : forall gs a, Forall wf_group gs -> advertised (map wrap gs) = Some a ->
+  il a == il (enforced (map pair_of gs)) /\ iu a == iu (enforced (map pair_of gs)).
+Proof. exact incl_equal. Qed.
+
+(* The enforced exclusion zone lies inside the advertised one. *)
+Theorem C17_excl_dominates : forall gs a, Forall wf_group gs -> advertised (map wrap gs) = Some a ->
+  el a <= el (enforced (map pair_of gs)) /\ eu (enforced (map pair_of gs)) <= eu a.
+Proof. exact excl_dominates. Qed.
+
+(* Any power (zero or not) within the advertised inclusion bounds and outside - or on the edge
+   of - the advertised exclusion zone is accepted, with and without adjust_power. *)
+Theorem C17_accept : forall gs a, Forall wf_group gs -> advertised (map wrap gs) = Some a ->
+  forall p adjust, il a <= p <= iu a -> (p <= el a \/ eu a <= p) ->
+  check_request adjust (enforced (map pair_of gs)) p = true.
+Proof. exact accept. Qed.
+
+(* ... in particular every power that `in SystemBounds` admits. *)
+Theorem C17_accept_contains : forall gs a, Forall wf_group gs -> advertised (map wrap gs) = Some a ->
+  forall p adjust, adv_contains (Some a) p = true ->
+  check_request adjust (enforced (map pair_of gs)) p = true.
+Proof. exact accept_contains. Qed.
+
+(* Such a power is at least the sum of the groups' minimum powers in its direction, each
+   group's minimum power computed from its own data (any grouping; consistent inverter data:
+   exclusion_lower <= 0 <= exclusion_upper). *)
+Theorem C17_min_powers : forall gs a p,
+  Forall wf_group gs -> Forall wf_inverters gs -> advertised (map wrap gs) = Some a ->
+  il a <= p <= iu a -> (p <= el a \/ eu a <= p) ->
+  (0 < p -> qsum (map min_power_up (map pair_of gs)) <= p) /\
+  (p < 0 -> qsum (map min_power_down (map pair_of gs)) <= - p).
+Proof. exact min_powers. Qed.
+
+(* The same for the minimum powers as the distribution algorithm stores them (one dict keyed by
+   component id, a group identified by its first battery): PARTIAL - holds when no component id
+   is written twice, i.e. for disjoint groups (every topology in which inverter sharing
+   partitions the batteries) ... *)
+Theorem C17_min_powers_partial : forall (igs : list igroup) a p,
+  NoDup (flat_map keys_of (map ipair_of igs)) ->
+  Forall wf_group (map cg_of igs) -> Forall wf_inverters (map cg_of igs) ->
+  advertised (map wrap (map cg_of igs)) = Some a ->
+  il a <= p <= iu a -> (p <= el a \/ eu a <= p) ->
+  (0 < p -> min_power_keyed true (map ipair_of igs) <= p) /\
+  (p < 0 -> min_power_keyed false (map ipair_of igs) <= - p).
+Proof. exact min_powers_keyed. Qed.
+
+(* ... and fails for overlapping battery sets (known finding C17-overlapping-battery-sets):
+   47 W is advertised and accepted, the stored minimum powers add up to 72 W. *)
+Theorem C17_min_powers_refuted_overlapping : exists (igs : list igroup) a p,
+  Forall wf_group (map cg_of igs) /\ Forall wf_inverters (map cg_of igs) /\
+  advertised (map wrap (map cg_of igs)) = Some a /\
+  il a <= p <= iu a /\ (p <= el a \/ eu a <= p) /\ 0 < p /\
+  (forall adjust, check_request adjust (enforced (map pair_of (map cg_of igs))) p = true) /\
+  ~ min_power_keyed true (map ipair_of igs) <= p.
+Proof. exact min_powers_refuted_overlapping. Qed.
+
+(* the zero test of _check_request is |p| <= the translated tolerance *)
+Theorem C17_zero_test : forall v, is_close_to_zero v = true <-> Qabs.Qabs v <= Pool.is_close_to_zero_abs_tol.
+Proof. exact is_close_to_zero_spec. Qed.
+
+(* non-vacuity: two groups whose battery / inverter exclusion bounds dominate alternately;
+   advertised exclusion (-200, 200) strictly contains the enforced one (-100, 100); 200 W is
+   advertised and accepted, 150 W is not advertised (and still accepted by the manager) *)
+Example C17_nonvacuous :
+  let g1 := ([mkPB (-1000) (-100) 100 1000], [mkPB (-1000) 0 0 1000]) in
+  let g2 := ([mkPB (-1000) 0 0 1000], [mkPB (-1000) (-100) 100 1000]) in
+  let gs := [g1; g2] in
+  Forall wf_group gs /\ Forall wf_inverters gs /\
+  advertised (map wrap gs) = Some (mkPB (0 + -1000 + -1000) (0 + -100 + -100) (0 + 100 + 100) (0 + 1000 + 1000)) /\
+  pb_eqb (enforced (map pair_of gs)) (mkPB (-2000) (-100) 100 2000) = true /\
+  adv_contains (advertised (map wrap gs)) 201 = true /\
+  adv_contains (advertised (map wrap gs)) 150 = false /\
+  check_request false (enforced (map pair_of gs)) 200 = true /\
+  check_request false (enforced (map pair_of gs)) 50 = false.
+Proof.
+  cbv zeta. repeat split; try (vm_compute; reflexivity).
+  - apply Forall_cons; [|apply Forall_cons; [|apply Forall_nil]]; split; cbn; congruence.
+  - apply Forall_cons; [|apply Forall_cons; [|apply Forall_nil]]; intros i [<-|[]]; split; cbn; lra.
+Qed.
+
+Print Assumptions C17_advertised_shape.
+Print Assumptions C17_incl_equal.
+Print Assumptions C17_excl_dominates.
+Print Assumptions C17_accept.
+Print Assumptions C17_accept_contains.
+Print Assumptions C17_min_powers.
+Print Assumptions C17_min_powers_partial.
+Print Assumptions C17_min_powers_refuted_overlapping.
+Print Assumptions C17_zero_test.
